@@ -8,6 +8,7 @@
 //             (writes = locations whose content changed), and re-run after perturbing one location at a time
 //             (reads = locations whose perturbation changes what the item writes).  Uses the positions set by the
 //             preceding `pos` commands (they must differ from those of the last step).  Last command of a case.
+//   setupoutput   colvarmodule::setup_output() (as an engine calls it after the configuration)
 //   endcase   print ENDCASE, destroy the module and the proxy (several scenarios in one process)
 // Reads scenarios from stdin or argv[1].
 #include <cstdio>
@@ -175,6 +176,15 @@ struct c12_session : public vsim_session {
       return true;
     }
     if (cmd == "footprints") { footprints(); return true; }
+    if (cmd == "setupoutput") {   // what an engine does after the configuration was read (replica files of metadynamics are opened there)
+      cvm::clear_error();
+      int err = proxy->colvars->setup_output();
+      // the module forwards to the biases only when the prefix changed; the simulator sets it before the module exists
+      for (colvarbias *b : proxy->colvars->biases) err |= b->setup_output();
+      o << "SETUPOUTPUT err=" << vs_errclass(err | cvm::get_error()) << "\n";
+      cvm::clear_error();
+      return true;
+    }
     if (cmd == "errbits") {
       cvm::clear_error();
       std::vector<int> codes;
